@@ -6,7 +6,7 @@ ALL_M = ('C01', 'C02', 'C03', 'C04', 'C06', 'C07', 'C08', 'C09', 'C10', 'C11', '
 H3 = (('post_create', 'sync'), ('pre_recycle', 'async'), ('post_recycle', 'sync'))
 H3A = (('post_create', 'async'), ('pre_recycle', 'sync'), ('post_recycle', 'async'))
 H6 = (('post_create', 'sync'), ('post_create', 'async'), ('pre_recycle', 'async'), ('pre_recycle', 'sync'), ('post_recycle', 'sync'), ('post_recycle', 'async'))
-OE = ('ok', 'err'); OEP = ('ok', 'err', 'pending'); OEPP = ('ok', 'err', 'pending', 'panic'); ALLO = ('ok', 'err', 'pending', 'stuck', 'panic')
+OE = ('ok', 'err'); OEP = ('ok', 'err', 'pending'); OEPP = ('ok', 'err', 'pending', 'panic'); OEPS = ('ok', 'err', 'pending', 'stuck'); ALLO = ('ok', 'err', 'pending', 'stuck', 'panic')
 
 META = {}
 
@@ -105,11 +105,13 @@ def jobs_for(pid, tier, seed):
         J.append(mfam('2 tasks, 3 hooks, outcomes ok/err/panic', ['C01'], 5 if q else 7, tasks=2, hooks=H3, env={'create': OE, 'recycle': OE, 'hook': ('ok', 'err', 'panic')}, probe=False))
         J.append(mfam('2 tasks + retain/status', ['C01'], 5 if q else 7, tasks=2, env={'create': OE, 'recycle': OE}, ctl=('retain', 'status'), probe=False))
         J.append(mfam('2 tasks, stuck manager futures', ['C01'], 5 if q else 7, tasks=2, env={'create': ('ok', 'stuck'), 'recycle': ('ok', 'err', 'stuck')}, probe=False))
+        J.append(mfam('thread level: retain racing get / return (idle objects, predicate and detach as schedule points)', ['C01'], 10 if q else 14, tasks=2, env={'create': ('ok',), 'recycle': ('ok',)},
+                      thread_mode=True, prefix=(('get', 'T1', 0), ('get', 'T2', 0), ('drop', 'T1', 0)), ctl=('retain',), max_ctl=1, cancel=False, take=False, lifo=False, max_gets=2, max_size_concrete=2, probe=False))
     elif pid == 'C02':
         J.append(mfam('2 tasks, ok/err/pending/panic', ['C02'], 5 if q else 7, tasks=2, env={'create': OEPP, 'recycle': OEPP}))
         J.append(mfam('3 tasks, ok/err', ['C02'], 4 if q else 6, tasks=3, env={'create': OE, 'recycle': OE}))
         J.append(mfam('2 tasks, 3 hooks ok/err/panic', ['C02'], 4 if q else 6, tasks=2, hooks=H3, env={'create': OE, 'recycle': OE, 'hook': ('ok', 'err', 'panic')}))
-        J.append(mfam('2 tasks, per-call timeouts', ['C02'], 4 if q else 6, tasks=2, env={'create': OEP, 'recycle': OEP},
+        J.append(mfam('2 tasks, per-call timeouts', ['C02'], 4 if q else 6, tasks=2, env={'create': OEPS, 'recycle': OEPS},
                       timeout_variants=[None, ('pos', 'pos', 'pos'), ('zero', None, None)]))
         J.append(mfam('thread level: take / return / get racing on a full pool (3 threads)', ['C02'], 16 if q else 20, tasks=3, env={'create': ('ok',), 'recycle': ('ok',)},
                       thread_mode=True, prefix=(('get', 'T1', 0), ('get', 'T3', 0)), cancel=False, lifo=False, max_gets=1, max_size_concrete=2))
@@ -120,7 +122,7 @@ def jobs_for(pid, tier, seed):
         J.append(mfam('1 task, 3 hooks (sync/async/sync), every outcome, cancel at every await', ['C03'], 6 if q else 9, tasks=1, hooks=H3, env=E, take=False, probe=False))
         J.append(mfam('1 task, 3 hooks (async/sync/async), every outcome', ['C03'], 6 if q else 9, tasks=1, hooks=H3A, env=E, take=False, probe=False))
         J.append(mfam('1 task, 6 hooks, ok/pending/panic', ['C03'], 5 if q else 7, tasks=1, hooks=H6, env={'create': ('ok', 'pending', 'panic'), 'recycle': ('ok', 'pending', 'panic'), 'hook': ('ok', 'pending', 'panic')}, take=False, probe=False))
-        J.append(mfam('1 task, enclosing per-call timeouts fire at every await', ['C03'], 5 if q else 8, tasks=1, hooks=H3A, env={'create': OEP, 'recycle': OEP, 'hook': OEP},
+        J.append(mfam('1 task, enclosing per-call timeouts fire at every await', ['C03'], 5 if q else 8, tasks=1, hooks=H3A, env={'create': OEPS, 'recycle': OEPS, 'hook': OEPS},
                       timeout_variants=[('pos', 'pos', 'pos')], take=False, probe=False))
         J.append(mfam('2 tasks, waiter + cancel, global invariants', ['C03', 'C01', 'C02', 'C11'], 5 if q else 7, tasks=2, hooks=(('pre_recycle', 'async'),), env={'create': OEP, 'recycle': OEP, 'hook': ('ok', 'pending')}, take=False))
     elif pid == 'C04':
@@ -128,7 +130,7 @@ def jobs_for(pid, tier, seed):
         J.append(mfam('1 task, 6 hooks (2 per kind, sync+async), ok/err', ['C04'], 6 if q else 8, tasks=1, hooks=H6, env=E, cancel=False, take=False, probe=False))
         J.append(mfam('2 tasks, 3 hooks, ok/err/pending', ['C04'], 5 if q else 7, tasks=2, hooks=H3, env={'create': OEP, 'recycle': OEP, 'hook': OEP}, take=False, probe=False))
         J.append(mfam('1 task, no hooks, ok/err, long histories', ['C04'], 8 if q else 11, tasks=1, env=E, cancel=False, take=False, probe=False))
-        J.append(mfam('2 tasks, per-call timeouts, 3 hooks async', ['C04'], 4 if q else 6, tasks=2, hooks=H3A, env={'create': OEP, 'recycle': OEP, 'hook': OEP},
+        J.append(mfam('2 tasks, per-call timeouts, 3 hooks async', ['C04'], 4 if q else 6, tasks=2, hooks=H3A, env={'create': OEPS, 'recycle': OEPS, 'hook': OEPS},
                       timeout_variants=[('pos', 'pos', 'pos')], take=False, probe=False))
         J.append(mfam('2 tasks, hooks panic', ['C04'], 5 if q else 7, tasks=2, hooks=H3, env={'create': OE, 'recycle': OE, 'hook': ('ok', 'err', 'panic')}, take=False, probe=False))
     elif pid == 'C06':
@@ -152,6 +154,8 @@ def jobs_for(pid, tier, seed):
     elif pid == 'C09':
         E = {'create': OE, 'recycle': OE}
         J.append(mfam('2 tasks + retain (any subset), take', ['C09'], 6 if q else 8, tasks=2, env={'create': ('ok',), 'recycle': OE}, ctl=('retain',), max_ctl=2, cancel=False))
+        J.append(mfam('2 tasks + retain while a get() is suspended in create / recycle', ['C09'], 5 if q else 7, tasks=2, env={'create': ('ok', 'pending'), 'recycle': ('ok', 'pending')}, ctl=('retain',), max_ctl=1,
+                      cancel=False, take=False, probe=False))
         J.append(mfam('3 tasks + retain, capacity probe', ['C09', 'C02'], 5 if q else 7, tasks=3, env={'create': ('ok',), 'recycle': ('ok',)}, ctl=('retain',), max_ctl=1, cancel=False, lifo=False))
         J.append(mfam('2 tasks + retain/resize/close: detach exactly once', ['C09'], 5 if q else 7, tasks=2, env=E, ctl=('retain', 'resize', 'close'), resize_targets=(0, 1), max_ctl=2, probe=False))
         J.append(mfam('2 tasks, hooks reject, cancel: detach exactly once', ['C09'], 5 if q else 7, tasks=2, hooks=H3, env={'create': OEP, 'recycle': OEP, 'hook': OEP}, probe=False))
@@ -160,11 +164,11 @@ def jobs_for(pid, tier, seed):
         J.append(mfam('thread level: take racing get and return (full pool)', ['C09', 'C02', 'C01'], 12 if q else 16, tasks=3, env={'create': ('ok',), 'recycle': ('ok',)},
                       thread_mode=True, prefix=(('get', 'T1', 0), ('get', 'T2', 0)), cancel=False, lifo=False, max_gets=1, max_size_bound=2))
     elif pid == 'C10':
-        E = {'create': OEP, 'recycle': OEP, 'hook': OEP}
+        E = {'create': OEPS, 'recycle': OEPS, 'hook': OEPS}
         TV = [None, ('zero', None, None), ('pos', None, None), (None, 'pos', None), (None, None, 'pos'), (None, 'zero', 'zero')]
-        J.append(mfam('2 tasks, per-call timeouts x deadline orderings', ['C10', 'C04', 'C03'], 4 if q else 6, tasks=2, env={'create': OEP, 'recycle': OEP}, timeout_variants=TV, take=False, cancel=False, probe=False, lifo=False))
+        J.append(mfam('2 tasks, per-call timeouts x deadline orderings', ['C10', 'C04', 'C03'], 4 if q else 6, tasks=2, env={'create': OEPS, 'recycle': OEPS}, timeout_variants=TV, take=False, cancel=False, probe=False, lifo=False))
         J.append(mfam('1 task, per-call timeouts, hooks async', ['C10', 'C04', 'C03'], 5 if q else 8, tasks=1, hooks=H3A, env=E, timeout_variants=TV, take=False, probe=False, lifo=False))
-        J.append(mfam('2 tasks, pool-level timeouts (pos,pos,pos)', ['C10', 'C04', 'C03'], 5 if q else 7, tasks=2, env={'create': OEP, 'recycle': OEP}, pool_timeouts=('pos', 'pos', 'pos'), take=False, probe=False, lifo=False))
+        J.append(mfam('2 tasks, pool-level timeouts (pos,pos,pos)', ['C10', 'C04', 'C03'], 5 if q else 7, tasks=2, env={'create': OEPS, 'recycle': OEPS}, pool_timeouts=('pos', 'pos', 'pos'), take=False, probe=False, lifo=False))
         J.append(mfam('2 tasks, pool-level zero wait', ['C10'], 5 if q else 7, tasks=2, env={'create': OEP, 'recycle': OEP}, pool_timeouts=('zero', None, None), take=False, probe=False, lifo=False))
         J.append(mfam('no runtime: per-call timeouts', ['C10'], 5 if q else 7, tasks=2, env={'create': OE, 'recycle': OE}, runtime=False, timeout_variants=TV, take=False, cancel=False, probe=False, lifo=False))
         for pt in (('pos', None, None), (None, 'zero', None), (None, None, 'pos'), (None, None, None), ('zero', None, None)):
@@ -190,6 +194,8 @@ def jobs_for(pid, tier, seed):
         C = ['deadpool_runtime', 'deadpool_sync']
         J.append({'name': 'one wrapper: up to 3 interacts (ok / panic), cancel, drop at any time, any blocking-pool order', 'kind': 'sync_bse',
                   'cfg': {'max_interacts': 3, 'depth': 14 if q else 18}, 'crates': C})
+        J.append({'name': 'closures that take time: up to 2 interacts, cancel / drop / further interacts while a closure is running', 'kind': 'sync_bse',
+                  'cfg': {'max_interacts': 2, 'depth': 12 if q else 16, 'split': True}, 'crates': C})
         J.append({'name': 'creation closure fails', 'kind': 'sync_bse', 'cfg': {'create': 'err', 'max_interacts': 0, 'depth': 4}, 'crates': C})
     elif pid == 'C15':
         for mgr, crate in (('sqlite', 'deadpool_sqlite'), ('r2d2', 'deadpool_r2d2'), ('diesel', 'deadpool_diesel')):
@@ -220,17 +226,28 @@ def jobs_for(pid, tier, seed):
         J.append(mfam('2 tasks + retain, fifo+lifo', ['C08'], 6 if q else 8, tasks=2, env={'create': ('ok',), 'recycle': OE}, ctl=('retain',), cancel=False, probe=False))
         J.append(mfam('2 tasks, 3 hooks, ok/err', ['C08'], 5 if q else 7, tasks=2, hooks=H3, env={'create': OE, 'recycle': OE, 'hook': OE}, probe=False))
         J.append(mfam('2 tasks + resize/close: user code only inside operations', ['C08'], 5 if q else 7, tasks=2, env={'create': OE, 'recycle': OE}, ctl=('resize', 'close', 'status'), probe=False))
+        P3 = (('get', 'T1', 0), ('get', 'T2', 0), ('get', 'T3', 0))
+        J.append(mfam('3 objects out, returned in any order, then gets with rejects (max_size 3)', ['C08'], 7 if q else 9, tasks=3, max_size_concrete=3, prefix=P3,
+                      env={'create': ('ok',), 'recycle': OE}, cancel=False, take=False, probe=False))
+        J.append(mfam('3 objects out, returned in any order, retain, then gets (max_size 3)', ['C08'], 7 if q else 9, tasks=3, max_size_concrete=3, prefix=P3,
+                      env={'create': ('ok',), 'recycle': ('ok',)}, ctl=('retain',), max_ctl=1, cancel=False, take=False, probe=False))
     elif pid == 'C11':
         J.append(mfam('2 tasks, ok/err/pending/panic', ['C11'], 5 if q else 7, tasks=2, env={'create': OEPP, 'recycle': OEPP}, probe=False))
         J.append(mfam('3 tasks, ok/err', ['C11'], 5 if q else 7, tasks=3, env={'create': OE, 'recycle': OE}, probe=False))
         J.append(mfam('2 tasks, 3 hooks, ok/err/panic', ['C11'], 5 if q else 7, tasks=2, hooks=H3, env={'create': OE, 'recycle': OE, 'hook': ('ok', 'err', 'panic')}, probe=False))
         J.append(mfam('2 tasks + retain/resize/close', ['C11'], 5 if q else 7, tasks=2, env={'create': OE, 'recycle': OE}, ctl=('retain', 'resize', 'close'), probe=False))
+        J.append(mfam('thread level: retain racing get / take / return (window between status() and the lock)', ['C11'], 10 if q else 14, tasks=2, env={'create': ('ok',), 'recycle': ('ok',)},
+                      thread_mode=True, prefix=(('get', 'T1', 0),), ctl=('retain',), max_ctl=1, cancel=False, lifo=False, max_gets=1, max_size_concrete=2, probe=False))
         J.append(mfam('2 tasks, release profile (wrapping counters)', ['C11'], 5 if q else 7, tasks=2, env={'create': OEPP, 'recycle': OEPP}, probe=False, overflow='wrap'))
     elif pid == 'C13':
         J.append(mfam('1 task, 3 hooks, ok/err/pending, long histories', ['C13'], 7 if q else 10, tasks=1, hooks=H3, env={'create': OE, 'recycle': OEP, 'hook': OEP}, take=False, probe=False))
         J.append(mfam('2 tasks, 3 hooks async, ok/err', ['C13'], 5 if q else 7, tasks=2, hooks=H3A, env={'create': OE, 'recycle': OE, 'hook': OE}, take=False, probe=False))
         J.append(mfam('2 tasks + retain sees reported metrics', ['C13'], 6 if q else 8, tasks=2, env={'create': ('ok',), 'recycle': OE}, ctl=('retain',), cancel=False, take=False, probe=False))
-        J.append(mfam('1 task, recycle timeouts / cancellations', ['C13'], 6 if q else 9, tasks=1, hooks=(('pre_recycle', 'async'), ('post_recycle', 'async')), env={'create': ('ok',), 'recycle': OEP, 'hook': OEP},
+        J.append(mfam('3 tasks, a waiter served late (lifo): the last-recycled instant never moves backwards', ['C13'], 7 if q else 9, tasks=3, max_size_concrete=2, lifo=True, prefix=(('get', 'T1', 0), ('get', 'T3', 0)),
+                      env={'create': ('ok',), 'recycle': ('ok',)}, cancel=False, take=False, probe=False))
+        J.append(mfam('3 tasks, a waiter served late (fifo)', ['C13'], 9 if q else 11, tasks=3, max_size_concrete=2, lifo=False, prefix=(('get', 'T1', 0), ('get', 'T3', 0)),
+                      env={'create': ('ok',), 'recycle': ('ok',)}, cancel=False, take=False, probe=False))
+        J.append(mfam('1 task, recycle timeouts / cancellations', ['C13'], 6 if q else 9, tasks=1, hooks=(('pre_recycle', 'async'), ('post_recycle', 'async')), env={'create': ('ok',), 'recycle': OEPS, 'hook': OEPS},
                       timeout_variants=[None, (None, None, 'pos')], take=False, probe=False))
     else:
         raise KeyError(pid)
@@ -252,6 +269,12 @@ def jobs_for(pid, tier, seed):
     if pid == 'C07':
         J.append(mfam('fine interleaving: return / take racing a shrink (2 objects out)', ['C07'], 22 if q else 30, tasks=2, max_size_concrete=2, prefix=(('get', 'T1', 0), ('get', 'T2', 0)), max_gets=1,
                       ctl=('resize',), resize_targets=(1,), max_ctl=1, thread_mode=True, fine=True, cancel=False, lifo=False, env={'create': ('ok',), 'recycle': ('ok',)}))
+    if pid in ('C01', 'C02', 'C09', 'C11'):
+        # inductive step from an arbitrary rest state: sequential histories of any length, any 64-bit max_size
+        for hk, nm in (((), 'no hooks'), (H3, '3 hooks')):
+            for lifo in (False, True):
+                J.append({'name': f'inductive step from an arbitrary state ({nm}, {"lifo" if lifo else "fifo"}): get / return / take / retain / status', 'kind': 'induct',
+                          'cfg': {'property': pid, 'hooks': hk, 'lifo': lifo, 'kmax': 3 if q else 4}, 'crates': ['deadpool']})
     if pid in ALL_M:
         nv = 2 if q else 8
         for k in range(nv): J.append(vfam(25 if q else 60, k * 1000))
@@ -308,6 +331,9 @@ def run(job):
                 'functions': dict(S.fns), 'models': dict(S.models), 'dump_s': prog.dump_s,
                 'bounds': {'depth': B.cfg['depth'], 'interacts': B.cfg.get('max_interacts'), 'blocking_pool': 'tasks run atomically in any order', **{k: _jsonable(v) for k, v in cfg.items() if k in ('manager', 'prefix', 'backend', 'method')}},
                 'summary': f'{R.states} states, {R.transitions} transitions, depth {R.max_depth}, {len(vios)} violation(s)'}
+    if job['kind'] == 'induct':
+        from . import w_induct
+        return w_induct.run_induct(prog, job)
     if job['kind'] == 'pgmanager':
         from . import w_pg
         return w_pg.run_c16(prog, job)
